@@ -11,12 +11,15 @@ from .. import common
 from ..common import rat, unrat
 
 PROP = "C17"
-RULE = ("kinds construct / subdist / saveload / dist; structured random dictionaries (bit, digit and multi-digit "
-        "outcomes; string, comma-string and tuple keys; dyadic and arbitrary weights) + a malformed stream + all "
-        "ordered qubit sub-lists for width <= 4; non-trivial: marginal onto a proper subset listed out of ascending "
-        "order (or a single non-first qubit), a pair of distributions with different supports, an un-normalised "
-        "constructor input with >= 2 outcomes, a save/load of >= 2 outcomes of width >= 2; distinct = distinct "
-        "canonical JSON of the case")
+RULE = ("kinds construct / subdist / saveload / dist (one call on fresh objects) and hist / pool / files (a history of "
+        "calls on long-lived objects: marginals, distances, save/load); structured random dictionaries (bit, digit and "
+        "multi-digit outcomes; string, comma-string and tuple keys; float / int / numpy values and entries; dyadic and "
+        "arbitrary weights) + a malformed stream + all ordered qubit sub-lists for width <= 4; non-trivial: marginal "
+        "onto a proper subset listed out of ascending order (or a single non-first qubit), a pair of distributions "
+        "with different supports, an un-normalised constructor input with >= 2 outcomes, a save/load of >= 2 outcomes "
+        "of width >= 2, a history asking one object for the same qubit set in two orders or touching >= 2 sibling "
+        "objects, a distance history re-using one parameter dictionary on >= 2 different pairs, a file history that "
+        "overwrites a path with different content and loads it again; distinct = distinct canonical JSON of the case")
 TRUSTED = [
     "Python float arithmetic: the model computes in exact rationals; implementation and model are compared exactly "
     "on dyadic inputs whose sums/normalisations are exact in binary64 and within 1e-12 (relative) otherwise; "
@@ -39,6 +42,12 @@ ASSUMPTIONS = [
     "kernel widths sigma > 0 (scalar or non-empty list), clipping constant epsilon > 0",
     "qubit lists for the marginal: non-empty, distinct, 0 <= q < width (negative Python indices are modelled but "
     "not judged by the oracle)",
+    "histories: `distribution_dict` is a public attribute; a history may swap / double its values in place (the "
+    "object stays a valid distribution) and may edit objects RETURNED by the library; every later answer is judged "
+    "against the current content of the object asked",
+    "documented defaults: sigma = 1.0 and epsilon = 1e-9 when the parameter dictionary lacks the key",
+    "MMD on registers of width >= 32 overflowed int64 before the repair b6e2a42 (fixed finding mmd-wide-register-overflow); "
+    "it is now compared and judged like any other register",
 ]
 
 _TOL = 1e-9
@@ -60,8 +69,24 @@ def _raw_key(k):
     return 5
 
 
-def _to_dict(items):
-    return {_raw_key(k): float(unrat(v)) for k, v in items}
+def _to_dict(items, vtype="float", ktype="py"):
+    """the dictionary a caller would pass.  vtype: float | int (integral weights as Python ints, e.g. counts) |
+    npfloat (numpy.float64); ktype: py | npint (tuple entries as numpy.int64)"""
+    import numpy as np
+    out = {}
+    for k, v in items:
+        key = _raw_key(k)
+        if ktype == "npint" and isinstance(key, tuple):
+            key = tuple(np.int64(e) for e in key)
+        f = unrat(v)
+        if vtype == "int" and f.denominator == 1:
+            val = int(f)
+        elif vtype == "npfloat":
+            val = np.float64(float(f))
+        else:
+            val = float(f)
+        out[key] = val
+    return out
 
 
 def _canon_dict(dd):
@@ -84,10 +109,56 @@ def _parse_key(k):
     return None
 
 
-def _build(D, items, normalize):
+def _build(D, items, normalize, vtype="float", ktype="py"):
     with warnings.catch_warnings():
         warnings.simplefilter("ignore")
-        return D.MeasurementOutcomeDistribution(_to_dict(items), normalize=normalize)
+        return D.MeasurementOutcomeDistribution(_to_dict(items, vtype, ktype), normalize=normalize)
+
+
+def _build_spec(D, s):
+    """s: a case or a member of a case: items, normalize, optional vtype / ktype"""
+    return _build(D, s["items"], s.get("normalize", True), s.get("vtype", "float"), s.get("ktype", "py"))
+
+
+def _spec(items, normalize=True, vtype="float", ktype="py"):
+    d = {"items": items, "normalize": normalize}
+    if vtype != "float":
+        d["vtype"] = vtype
+    if ktype != "py":
+        d["ktype"] = ktype
+    return d
+
+
+def _mk_params(ps):
+    """parameter dictionary as a caller would write it.  ps: {"sigma": rat | [rat] | None, "stype": float | int |
+    list | tuple | array, "epsilon": rat | None}; None = the key is absent (documented default)"""
+    import numpy as np
+    par = {}
+    sg = ps.get("sigma")
+    if sg is not None:
+        if isinstance(sg, list):
+            vals = [float(unrat(x)) for x in sg]
+            st = ps.get("stype") or "list"
+            par["sigma"] = tuple(vals) if st == "tuple" else np.array(vals) if st == "array" else vals
+        else:
+            f = unrat(sg)
+            par["sigma"] = int(f) if (ps.get("stype") == "int" and f.denominator == 1) else float(f)
+    if ps.get("epsilon") is not None:
+        par["epsilon"] = float(unrat(ps["epsilon"]))
+    return par
+
+
+def _sigma_eps(ps):
+    """the values the caller means (documented defaults 1.0 and 1e-9)"""
+    sg = ps.get("sigma")
+    sigma = 1.0 if sg is None else [float(unrat(x)) for x in sg] if isinstance(sg, list) else float(unrat(sg))
+    eps = 1e-9 if ps.get("epsilon") is None else float(unrat(ps["epsilon"]))
+    return sigma, eps
+
+
+def _dist_params(c):
+    """the two parameter specs of a `dist` case (one for the MMD calls, one for the log-likelihood calls)"""
+    return ({"sigma": c.get("sigma"), "stype": c.get("stype")}, {"epsilon": c.get("eps")})
 
 
 def _guard(fn):
@@ -99,6 +170,8 @@ def _guard(fn):
         return "err:value"
     except IndexError:
         return "err:index"
+    except TypeError:
+        return "err:type"
 
 
 # ---------------------------------------------------------------- corpus / generator
@@ -126,6 +199,47 @@ def corpus():
          "exact": True},
         {"kind": "construct", "items": [["0", "1/2"], ["1", "268435457/536870912"]], "normalize": True,
          "exact": False},
+        # ---- classes found by seeded changes (round 3): histories on long-lived objects
+        # one object asked for the same qubit set in several orders, repeats, an edited result, an edited source
+        {"kind": "hist", "exact": True,
+         "specs": [{"items": [[[0, 0, 1], "1/8"], [[0, 1, 0], "1/4"], [[1, 0, 1], "1/2"], [[1, 1, 0], "1/8"]],
+                    "normalize": True},
+                   {"items": [[[0, 0, 1], "1/2"], [[0, 1, 0], "1/8"], [[1, 0, 1], "1/8"], [[1, 1, 0], "1/4"]],
+                    "normalize": True}],
+         "steps": [["sub", 0, [0, 1], False], ["sub", 0, [1, 0], True], ["sub", 1, [1, 0], False],
+                   ["sub", 0, [1, 0], False], ["sub", 0, [2, 0, 1], False], ["sub", 0, [0, 1, 2], True],
+                   ["sub", 1, [0, 1, 2], False], ["swap", 0, 0, 2], ["sub", 0, [0, 1], False], ["scale", 0, 1],
+                   ["sub", 0, [2], False], ["replace", 0, 1], ["sub", 0, [1, 0], False], ["sub", 0, [2], False]]},
+        # distances on a pool of siblings (same support in another order, an equal copy, other weights on the same
+        # outcomes) with re-used parameter dictionaries
+        {"kind": "pool",
+         "specs": [{"items": [["00", "1/2"], ["01", "1/4"], ["11", "1/4"]]},
+                   {"items": [["11", "5/8"], ["00", "1/8"], ["01", "1/4"]]},
+                   {"items": [["11", "1/4"], ["01", "1/4"], ["00", "1/2"]]},
+                   {"items": [["00", "1/2"], ["10", "1/2"]]}],
+         "params": [{"sigma": 1}, {"sigma": ["1/4", 1, 4], "stype": "array"}, {"epsilon": "1/100"}, {}],
+         "steps": [["mmd", 0, 1, 0, "direct"], ["mmd", 1, 0, 0, "direct"], ["mmd", 0, 2, 0, "direct"],
+                   ["mmd", 0, 0, 1, "direct"], ["mmd", 3, 0, 1, "eval"], ["mmd", 0, 3, 1, "direct"],
+                   ["jsd", 0, 3, 2, "direct"], ["jsd", 3, 0, 2, "direct"], ["nll", 0, 3, 2, "direct"],
+                   ["nll", 3, 0, 2, "eval"], ["nll", 0, 1, 3, "direct"], ["mmd", 2, 1, 3, "direct"],
+                   ["jsd", 1, 3, 3, "direct"], ["jsd", 3, 1, 3, "direct"]]},
+        # one path overwritten with different content; a list of different distributions; path and file object
+        {"kind": "files", "exact": True,
+         "specs": [{"items": [["00", "1/4"], ["01", 0], ["10", "3/4"]]}, {"items": [[[3, 12], "1/2"], [[0, 7], "1/2"]]},
+                   {"items": [["11", "1/2"], ["00", "1/2"]]}],
+         "steps": [["save", 0, 0], ["load", 0, "path"], ["poke"], ["load", 0, "fobj"], ["save", 0, 1],
+                   ["load", 0, "path"], ["saves", 1, [0, 1, 2]], ["loads", 1, "path"], ["poke"], ["loads", 1, "fobj"],
+                   ["saves", 1, [2, 2, 0]], ["loads", 1, "path"], ["save", 1, 2], ["load", 1, "path"]]},
+        {"kind": "construct", "items": [[[0, 1], "3/2"], [[1, 1], "-1/2"]], "normalize": True, "exact": True},
+        {"kind": "construct", "items": [[[0, 1], 3], [[1, 1], 5]], "normalize": True, "exact": True, "vtype": "int",
+         "ktype": "npint"},
+        {"kind": "construct", "via": "probs", "items": [[[0, 0], "1/2"], [[0, 1], 0], [[1, 0], "1/4"], [[1, 1], "1/4"]],
+         "normalize": True, "exact": True},
+        # MMD on a register of width >= 32 (int64 overflow of the squared code differences)
+        {"kind": "dist", "p": [[[0] * 33, 1]], "q": [[[0] * 33, "1/2"], [[1] + [0] * 32, "1/4"], [[0] * 32 + [1], "1/4"]],
+         "sigma": 1, "eps": "1/1000000000"},
+        {"kind": "dist", "p": [[[0] * 32, "1/2"], [[1, 1] + [0] * 30, "1/2"]], "q": [[[0] * 32, 1]], "sigma": 1,
+         "eps": "1/1000000000"},
     ]
 
 
@@ -166,6 +280,8 @@ def _weights(rng, n, mode):
         return [Fraction(1, 2)] * 1 + [Fraction(1, 2) + Fraction(1, 2 ** 31)] + [Fraction(0)] * (n - 2), n >= 2
     if mode == "far_one":  # total 1 + 2^-28 is not close: renormalised (inexact)
         return [Fraction(1, 2)] * 1 + [Fraction(1, 2) + Fraction(1, 2 ** 28)] + [Fraction(0)] * (n - 2), False
+    if mode == "counts":  # raw integer counts (arbitrary total)
+        return [Fraction(rng.randrange(0, 60)) for _ in range(n)], False
     return [Fraction(rng.randrange(0, 1000), rng.randrange(1, 1000)) for _ in range(n)], False
 
 
@@ -181,7 +297,7 @@ def _spell(rng, key, form):
 
 def _items(rng, w, n, base, form=None, mode=None):
     keys = _keys(rng, w, n, base)
-    mode = mode or rng.choice(["dyadic_norm", "dyadic", "dyadic", "any", "any"])
+    mode = mode or rng.choice(["dyadic_norm", "dyadic", "dyadic", "any", "any", "counts"])
     if mode in ("near_one", "far_one") and len(keys) < 2:
         mode = "dyadic"
     ws, exact = _weights(rng, len(keys), mode)
@@ -198,7 +314,7 @@ def _items(rng, w, n, base, form=None, mode=None):
 def _malformed_construct(rng):
     w = rng.randrange(1, 4)
     items, _ = _items(rng, w, rng.randrange(1, 5), 2)
-    pick = rng.randrange(12)
+    pick = rng.randrange(18)
     if pick == 0:
         items = []
     elif pick == 1:
@@ -222,9 +338,232 @@ def _malformed_construct(rng):
     elif pick == 10:  # two spellings of the same outcome: the later value wins
         k = [rng.randrange(2) for _ in range(w)]
         items = [["".join(map(str, k)), "1/4"], [list(k), "3/4"], [[1 - k[0]] + k[1:], "1"]]
-    else:
+    elif pick == 11:
         items.append(["-1," + ",".join(["0"] * w), "1/4"])
+    elif pick == 12:  # a negative value hidden in a total of exactly 1 ("already normalised")
+        k = _keys(rng, w, 2, 2)
+        if len(k) < 2:
+            k = [[0] * w, [1] * w]
+        neg = Fraction(rng.randrange(1, 9), 8)
+        items = [[_spell(rng, k[0], rng.choice(["str", "tuple"])), rat(1 + neg)], [list(k[1]), rat(-neg)]]
+        rng.shuffle(items)
+    elif pick == 13:  # a tiny negative value
+        items[rng.randrange(len(items))][1] = rat(-Fraction(1, 10 ** rng.choice([9, 12, 15, 30])))
+    elif pick == 14:  # the odd-length key first / in the middle / last, all tuples or all strings
+        form = rng.choice(["str", "tuple"])
+        ks = _keys(rng, w, 3, 2) + [[0] * (w + 1)]
+        rng.shuffle(ks)
+        items = [[_spell(rng, k, form), "1/4"] for k in ks]
+    elif pick == 15:  # a negative entry deep inside an all-tuple dictionary
+        ks = _keys(rng, w, 3, 2)
+        bad = [rng.randrange(2) for _ in range(w)]
+        bad[rng.randrange(w)] = -rng.randrange(1, 4)
+        ks.insert(rng.randrange(len(ks) + 1), bad)
+        items = [[list(k), "1/4"] for k in ks]
+    elif pick == 16:  # all weights zero but one negative
+        items = [[k, 0] for k, _ in items] + [[[1] * w, 0]]
+        items[rng.randrange(len(items))][1] = "-1/2"
+        seen, uniq = set(), []
+        for k, v in items:
+            if _parse_key(k) not in seen:
+                seen.add(_parse_key(k))
+                uniq.append([k, v])
+        items = uniq
+    else:  # a single outcome with a negative weight
+        items = [[items[0][0], rat(-Fraction(rng.randrange(1, 5), 4))]]
     return items
+
+
+def _vk(rng):
+    """value / entry types of the caller's dictionary"""
+    return rng.choice(["float", "float", "float", "int", "npfloat"]), rng.choice(["py", "py", "py", "npint"])
+
+
+def _respell(rng, items, form):
+    out = []
+    for k, v in items:
+        f = rng.choice(["str", "tuple", "comma"]) if form == "mixed" else form
+        out.append([_spell(rng, list(_parse_key(k)), f), v])
+    return out
+
+
+def _siblings(rng, items, w, base):
+    """variants of one dictionary that differ from it in exactly one respect"""
+    kind = rng.choice(["values", "values", "key", "same", "order", "order", "spelling", "nudge"])
+    its = [list(x) for x in items]
+    if kind == "nudge" and len(its) >= 2:  # nearly the same distribution: a little weight moves between two outcomes
+        a, b = rng.sample(range(len(its)), 2)
+        tot = sum(unrat(v) for _, v in its)
+        d = min(unrat(its[a][1]), tot * Fraction(1, 2 ** rng.choice([6, 10, 14])))
+        its[a][1] = rat(unrat(its[a][1]) - d)
+        its[b][1] = rat(unrat(its[b][1]) + d)
+        return its
+    if kind == "values" and len(its) >= 2:
+        vs = [v for _, v in its]
+        vs = vs[1:] + vs[:1]
+        its = [[k, v] for (k, _), v in zip(its, vs)]
+    elif kind == "key":
+        have = {_parse_key(k) for k, _ in its}
+        for cand in _keys(rng, w, 6, base):
+            if tuple(cand) not in have:
+                its[rng.randrange(len(its))][0] = list(cand)
+                break
+    elif kind == "order":
+        its = its[::-1] if rng.random() < 0.5 else rng.sample(its, len(its))
+    elif kind == "spelling":
+        its = _respell(rng, its, rng.choice(["str", "tuple", "comma", "mixed"]))
+    return its
+
+
+def _gen_hist(rng, big):
+    wide = rng.random() < 0.15
+    if wide:
+        w, base = rng.randrange(11, 15), 2
+    else:
+        w = rng.choice([2, 3, 3, 4, 4, 5] + ([6] if big else []))
+        base = rng.choice([2, 2, 2, 10])
+    mode = rng.choice(["dyadic_norm", "dyadic", "dyadic", "any", "counts"])
+    items, exact = _items(rng, w, rng.randrange(2, 9), base, form=rng.choice(["tuple", "tuple", "str", "comma", "mixed"]),
+                          mode=mode)
+    nz = rng.random() < 0.75
+    vt, kt = _vk(rng)
+    specs = [_spec(items, nz, vt, kt)]
+    for _ in range(rng.choice([0, 1, 1, 2])):
+        specs.append(_spec(_siblings(rng, items, w, base), nz if rng.random() < 0.8 else not nz, vt, kt))
+    if w <= 3 or (w == 4 and rng.random() < 0.3):
+        lists = [list(qs) for r in range(1, w + 1) for qs in itertools.permutations(range(w), r)]
+    else:
+        lists = []
+        for _ in range(rng.randrange(2, 5)):
+            sub = rng.sample(range(w), rng.randrange(1, min(w, 4) + 1))
+            if wide and rng.random() < 0.7:
+                sub[0] = rng.randrange(10, w)
+                sub = list(dict.fromkeys(sub))
+            lists += [sub, sub[::-1], rng.sample(sub, len(sub))]
+        lists.append(list(range(w)))
+    rng.shuffle(lists)
+    steps = []
+    for qs in lists:
+        sidx = rng.randrange(len(specs))
+        steps.append(["sub", sidx, qs, rng.random() < 0.2])
+        r = rng.random()
+        if r < 0.08:
+            steps.append(["swap", sidx, rng.randrange(8), rng.randrange(8)])
+        elif r < 0.12:
+            steps.append(["scale", sidx, rng.randrange(8)])
+        elif r < 0.17 and len(specs) >= 2:
+            steps.append(["replace", sidx, rng.randrange(len(specs))])
+        elif r < 0.20:
+            steps.append(["sub", sidx, qs + [rng.choice(qs + [w])], False])
+        elif r < 0.30:
+            steps.append(["sub", rng.randrange(len(specs)), qs, False])
+    for st in rng.sample(steps, min(4, len(steps))):  # ask again at the end
+        if st[0] == "sub":
+            steps.append(["sub", st[1], st[2], False])
+    return {"kind": "hist", "specs": specs, "steps": steps, "exact": exact}
+
+
+def _rand_params(rng, which):
+    ps = {}
+    if which in ("sigma", "both"):
+        r = rng.random()
+        if r < 0.15:
+            pass  # default
+        elif r < 0.6:
+            den = rng.choice([1, 1, 2, 10, 16])
+            ps["sigma"] = rat(Fraction(rng.randrange(1, 80), den))
+            if den == 1 and rng.random() < 0.5:
+                ps["stype"] = "int"
+        else:
+            n = rng.randrange(1, 4)
+            sg = [rat(Fraction(rng.randrange(1, 80), rng.choice([1, 4, 10]))) for _ in range(n)]
+            if n >= 2 and rng.random() < 0.3:
+                sg[1] = sg[0]  # repeated equal widths
+            ps["sigma"] = sg
+            ps["stype"] = rng.choice(["list", "tuple", "array"])
+    if which in ("epsilon", "both"):
+        if rng.random() >= 0.15:
+            ps["epsilon"] = rat(rng.choice([Fraction(1, 10 ** 9), Fraction(1, 10 ** 6), Fraction(1, 1000), Fraction(1, 100),
+                                            Fraction(1, 8), Fraction(1, 2)]))
+    return ps
+
+
+def _gen_pool(rng, big):
+    w = rng.choice([1, 2, 2, 3, 3, 4, 6, 9, 12] + ([16, 20, 31] if big else [16]))
+    items, _ = _items(rng, w, rng.randrange(2, 9), 2)
+    specs = [_spec(items)]
+    for _ in range(rng.randrange(1, 4)):
+        specs.append(_spec(_siblings(rng, items, w, 2)))
+    if rng.random() < 0.6:
+        other, _ = _items(rng, w, rng.randrange(1, 9), 2)
+        specs.append(_spec(other))
+    if rng.random() < 0.3:  # the same outcomes as member 0, listed in another order, with explicit zeros
+        z = [[k, v] for k, v in rng.sample(items, len(items))]
+        z[0][1] = 0
+        if sum(unrat(v) for _, v in z) > 0:
+            specs.append(_spec(z))
+    params = [_rand_params(rng, "sigma"), _rand_params(rng, "sigma"), _rand_params(rng, "epsilon"),
+              _rand_params(rng, "epsilon")]
+    n = len(specs)
+    steps = []
+    for _ in range(rng.randrange(4, 9)):
+        fn = rng.choice(["mmd", "mmd", "nll", "jsd"])
+        i, j = rng.randrange(n), rng.randrange(n)
+        pi = rng.randrange(2) if fn == "mmd" else 2 + rng.randrange(2)
+        via = "eval" if rng.random() < 0.2 else "direct"
+        steps.append([fn, i, j, pi, via])
+        r = rng.random()
+        if r < 0.5:
+            steps.append([fn, j, i, pi, via])  # the other direction, same parameters
+        elif r < 0.7:
+            steps.append([fn, i, rng.randrange(n), pi, via])  # one component changed
+        elif r < 0.85:
+            steps.append([fn, i, j, (pi // 2) * 2 + (1 - pi % 2), via])  # other parameters, same pair
+    for st in rng.sample(steps, min(3, len(steps))):
+        steps.append(list(st))
+    return {"kind": "pool", "specs": specs, "params": params, "steps": steps}
+
+
+def _gen_files(rng, big):
+    specs, fam = [], []
+    exact = True
+    for _ in range(rng.randrange(2, 5)):
+        w = rng.choice([1, 2, 2, 3, 5, 11])
+        base = rng.choice([2, 2, 10, 25, 1000])
+        if w == 1:
+            base = min(base, 10)  # the F7 class (known finding) stays in the corpus / saveload kind
+        items, ex = _items(rng, w, rng.randrange(1, 9), base)
+        exact = exact and ex
+        vt, kt = _vk(rng)
+        specs.append(_spec(items, rng.random() < 0.9, vt, kt))
+        if rng.random() < 0.6:
+            specs.append(_spec(_siblings(rng, items, w, base), specs[-1]["normalize"], vt, kt))
+            fam.append([len(specs) - 2, len(specs) - 1])
+    n = len(specs)
+    content = [None, None]
+    steps = []
+    for _ in range(rng.randrange(5, 12)):
+        pth = rng.randrange(2)
+        if content[pth] is None or rng.random() < 0.45:
+            if rng.random() < 0.5:
+                i = rng.randrange(n)
+                steps.append(["save", pth, i])
+                content[pth] = "one"
+            else:
+                ids = [rng.randrange(n) for _ in range(rng.randrange(1, 5))]
+                if fam and rng.random() < 0.6:  # siblings (e.g. the same outcomes with other weights) in one file
+                    ids += rng.choice(fam)
+                    rng.shuffle(ids)
+                steps.append(["saves", pth, ids])
+                content[pth] = "many"
+        mode = rng.choice(["path", "path", "fobj"])
+        steps.append(["load" if content[pth] == "one" else "loads", pth, mode])
+        r = rng.random()
+        if r < 0.25:
+            steps.append(["poke"])
+        if r < 0.4:
+            steps.append(["load" if content[pth] == "one" else "loads", pth, rng.choice(["path", "fobj"])])
+    return {"kind": "files", "specs": specs, "steps": steps, "exact": exact}
 
 
 def generate(rng, tier):
@@ -236,7 +575,16 @@ def generate(rng, tier):
         base = rng.choice([2, 2, 2, 10, 40])
         mode = rng.choice([None, None, None, "near_one", "far_one"])
         items, exact = _items(rng, w, rng.randrange(1, 9), base, mode=mode)
-        cases.append({"kind": "construct", "items": items, "normalize": rng.random() < 0.85, "exact": exact})
+        vt, kt = _vk(rng)
+        cases.append({"kind": "construct", "items": items, "normalize": rng.random() < 0.85, "exact": exact,
+                      "vtype": vt, "ktype": kt})
+    for _ in range(60 if big else 12):  # from a probability vector (all 2^n bitstrings, zeros included)
+        n = rng.randrange(1, 5)
+        ws, exact = _weights(rng, 2 ** n, rng.choice(["dyadic_norm", "dyadic", "any"]))
+        if sum(ws) == 0:
+            ws[0] = Fraction(1)
+        items = [[list(k), rat(v)] for k, v in zip(itertools.product([0, 1], repeat=n), ws)]
+        cases.append({"kind": "construct", "via": "probs", "items": items, "normalize": True, "exact": exact})
     for _ in range(400 if big else 70):
         cases.append({"kind": "construct", "items": _malformed_construct(rng), "normalize": rng.random() < 0.8,
                       "exact": False})
@@ -265,8 +613,23 @@ def generate(rng, tier):
             qs = qs + [w + rng.randrange(0, 2)]
         elif bad < 0.22:
             qs = [-rng.randrange(1, w + 3)] + qs[1:]
+        vt, kt = _vk(rng)
         cases.append({"kind": "subdist", "items": items, "normalize": rng.random() < 0.9, "qubits": qs,
-                      "exact": exact})
+                      "exact": exact, "vtype": vt, "ktype": kt})
+    for _ in range(100 if big else 20):  # wide registers: qubit indices of two digits
+        w = rng.randrange(11, 16 if big else 14)
+        items, exact = _items(rng, w, rng.randrange(2, 10), rng.choice([2, 2, 10]))
+        qs = rng.sample(range(w), rng.randrange(1, 5))
+        qs[rng.randrange(len(qs))] = rng.randrange(10, w)
+        qs = list(dict.fromkeys(qs))
+        cases.append({"kind": "subdist", "items": items, "normalize": rng.random() < 0.9, "qubits": qs, "exact": exact})
+    # ---- histories on long-lived objects
+    for _ in range(800 if big else 120):
+        cases.append(_gen_hist(rng, big))
+    for _ in range(800 if big else 120):
+        cases.append(_gen_pool(rng, big))
+    for _ in range(500 if big else 80):
+        cases.append(_gen_files(rng, big))
     # ---- save / load
     for _ in range(500 if big else 90):
         w = rng.choice([0, 1, 1, 2, 2, 3, 5])
@@ -274,24 +637,34 @@ def generate(rng, tier):
         if w == 1 and base > 10 and rng.random() < 0.8:
             base = 10  # the F7 class is in the corpus; keep most generated cases inside the domain
         items, exact = _items(rng, w, rng.randrange(1, 9), base)
+        vt, kt = _vk(rng)
         cases.append({"kind": "saveload", "items": items, "normalize": rng.random() < 0.9, "exact": exact,
-                      "many": rng.random() < 0.3})
+                      "many": rng.random() < 0.3, "vtype": vt, "ktype": kt})
     # ---- distances
     for _ in range(900 if big else 160):
         w = rng.randrange(1, 6 if big else 5)
+        if rng.random() < 0.12:
+            w = rng.choice([8, 9, 10, 12, 16, 24, 31])
         base = 2 if rng.random() < 0.93 else 3
         p, _ = _items(rng, w, rng.randrange(1, 9), base)
-        if rng.random() < 0.12:
+        r = rng.random()
+        if r < 0.12:
             q = p
+        elif r < 0.30 and len(p) >= 2:
+            q = _siblings(rng, p, w, base)
         else:
             q, _ = _items(rng, w, rng.randrange(1, 9), base)
-        if rng.random() < 0.7:
-            sigma = rat(Fraction(rng.randrange(1, 80), rng.choice([1, 2, 10, 16])))
-        else:
-            sigma = [rat(Fraction(rng.randrange(1, 80), rng.choice([1, 4, 10]))) for _ in range(rng.randrange(1, 4))]
-        eps = rat(rng.choice([Fraction(1, 10 ** 9), Fraction(1, 10 ** 9), Fraction(1, 10 ** 6), Fraction(1, 1000),
-                              Fraction(1, 8), Fraction(1, 2)]))
-        cases.append({"kind": "dist", "p": p, "q": q, "sigma": sigma, "eps": eps})
+        ps = _rand_params(rng, "both")
+        c = {"kind": "dist", "p": p, "q": q, "sigma": ps.get("sigma"), "eps": ps.get("epsilon")}
+        if ps.get("stype"):
+            c["stype"] = ps["stype"]
+        cases.append(c)
+    for _ in range(40 if big else 6):  # registers of width >= 32 (MMD judged by the oracle only, see ASSUMPTIONS)
+        w = rng.choice([32, 33, 40, 48, 63, 64, 65, 70])
+        p, _ = _items(rng, w, rng.randrange(1, 4), 2)
+        q, _ = _items(rng, w, rng.randrange(1, 4), 2)
+        cases.append({"kind": "dist", "p": p, "q": q, "sigma": rat(Fraction(rng.randrange(1, 80), 4)),
+                      "eps": "1/1000000000"})
     return cases
 
 
@@ -313,96 +686,314 @@ def nontrivial(c):
     if k == "saveload":
         ks = [_parse_key(x) for x, _ in c["items"]]
         return len(ks) >= 2 and all(x is not None and len(x) >= 2 for x in ks)
+    if k == "hist":
+        subs = [st for st in c["steps"] if st[0] == "sub" and len(set(st[2])) == len(st[2])]
+        reord = any(a[1] == b[1] and a[2] != b[2] and sorted(a[2]) == sorted(b[2]) for a in subs for b in subs)
+        return reord or len({st[1] for st in subs}) >= 2
+    if k == "pool":
+        pairs = {}
+        for _fn, i, j, pi, _via in c["steps"]:
+            pairs.setdefault(pi, set()).add(frozenset((i, j)))
+        return any(len(v) >= 2 for v in pairs.values())
+    if k == "files":
+        content, rewritten = {}, set()
+        for st in c["steps"]:
+            if st[0] in ("save", "saves"):
+                if st[1] in content and content[st[1]] != st[2]:
+                    rewritten.add(st[1])
+                content[st[1]] = st[2]
+            elif st[0] in ("load", "loads") and st[1] in rewritten:
+                return True
+        return False
     return False
 
 
 # ---------------------------------------------------------------- implementation adapter
+def _quiet(fn):
+    with warnings.catch_warnings():
+        warnings.simplefilter("ignore")
+        return fn()
+
+
 def run_impl(c):
     D = _mods()
     k = c["kind"]
     if k == "construct":
-        inp = _to_dict(c["items"])
-        before = dict(inp)
-
-        def go():
-            with warnings.catch_warnings():
-                warnings.simplefilter("ignore")
-                return _canon_dict(D.MeasurementOutcomeDistribution(inp, normalize=c["normalize"]).distribution_dict)
-        res = _guard(go)
-        return {"res": res, "input_intact": list(inp.items()) == list(before.items())}
+        return _run_construct(D, c)
     if k == "subdist":
-        src = _guard(lambda: _build(D, c["items"], c["normalize"]))
+        src = _guard(lambda: _build_spec(D, c))
         if isinstance(src, str):
             return {"source": src}
         before = _canon_dict(src.distribution_dict)
-
-        def go():
-            with warnings.catch_warnings():
-                warnings.simplefilter("ignore")
-                return _canon_dict(src.subdistribution(list(c["qubits"])).distribution_dict)
-        res = _guard(go)
-        return {"source": before, "source_after": _canon_dict(src.distribution_dict), "res": res}
+        res = _guard(lambda: _quiet(lambda: _canon_dict(src.subdistribution(list(c["qubits"])).distribution_dict)))
+        mid = _canon_dict(src.distribution_dict)
+        # the same question again, on the same object (a fresh list: whether the list itself is modified is C20's)
+        res2 = _guard(lambda: _quiet(lambda: _canon_dict(src.subdistribution(list(c["qubits"])).distribution_dict)))
+        return {"source": before, "source_after": mid, "res": res, "res_again": res2,
+                "source_after_again": _canon_dict(src.distribution_dict)}
     if k == "saveload":
-        src = _guard(lambda: _build(D, c["items"], c["normalize"]))
-        if isinstance(src, str):
-            return {"source": src}
-        before = _canon_dict(src.distribution_dict)
-        fd, path = tempfile.mkstemp(suffix=".json", prefix="oq_c17_")
-        os.close(fd)
-        try:
-            import json
-            with warnings.catch_warnings():
-                warnings.simplefilter("ignore")
-                if c.get("many"):
-                    D.save_measurement_outcome_distributions([src, src], path)
-                    with open(path) as f:
-                        saved = json.load(f)["measurement_outcome_distribution"]
-                    saved_items = [[kk, rat(Fraction(v))] for kk, v in saved[0].items()]
-                    same = saved[0] == saved[1]
-
-                    def go():
-                        l = D.load_measurement_outcome_distributions(path)
-                        assert len(l) == 2 and l[0].distribution_dict == l[1].distribution_dict
-                        return _canon_dict(l[0].distribution_dict)
-                else:
-                    D.save_measurement_outcome_distribution(src, path)
-                    with open(path) as f:
-                        saved = json.load(f)["measurement_outcome_distribution"]
-                    saved_items = [[kk, rat(Fraction(v))] for kk, v in saved.items()]
-                    same = True
-
-                    def go():
-                        return _canon_dict(D.load_measurement_outcome_distribution(path).distribution_dict)
-                loaded = _guard(go)
-        finally:
-            os.remove(path)
-        return {"source": before, "source_after": _canon_dict(src.distribution_dict), "saved": saved_items,
-                "loaded": loaded, "copies_equal": same}
+        return _run_saveload(D, c)
     if k == "dist":
-        P = _guard(lambda: _build(D, c["p"], True))
-        Q = _guard(lambda: _build(D, c["q"], True))
-        if isinstance(P, str) or isinstance(Q, str):
-            return {"p": P if isinstance(P, str) else "ok", "q": Q if isinstance(Q, str) else "ok"}
-        sg = c["sigma"]
-        sigma = [float(unrat(s)) for s in sg] if isinstance(sg, list) else float(unrat(sg))
-        eps = float(unrat(c["eps"]))
-        bp, bq = _canon_dict(P.distribution_dict), _canon_dict(Q.distribution_dict)
-
-        def f(fn, a, b, par):
-            return _guard(lambda: float(fn(a, b, dict(par))))
-        out = {"p": bp, "q": bq,
-               "mmd_pq": f(D.compute_mmd, P, Q, {"sigma": sigma}), "mmd_qp": f(D.compute_mmd, Q, P, {"sigma": sigma}),
-               "mmd_pp": f(D.compute_mmd, P, P, {"sigma": sigma}),
-               "nll_pq": f(D.compute_clipped_negative_log_likelihood, P, Q, {"epsilon": eps}),
-               "nll_qp": f(D.compute_clipped_negative_log_likelihood, Q, P, {"epsilon": eps}),
-               "jsd_pq": f(D.compute_jensen_shannon_divergence, P, Q, {"epsilon": eps}),
-               "jsd_qp": f(D.compute_jensen_shannon_divergence, Q, P, {"epsilon": eps}),
-               "args_intact": bp == _canon_dict(P.distribution_dict) and bq == _canon_dict(Q.distribution_dict)}
-        return out
+        return _run_dist(D, c)
+    if k == "hist":
+        return _run_hist(D, c)
+    if k == "pool":
+        return _run_pool(D, c)
+    if k == "files":
+        return _run_files(D, c)
     raise AssertionError("unknown kind")
 
 
+def _run_construct(D, c):
+    import numpy as np
+    inp = _to_dict(c["items"], c.get("vtype", "float"), c.get("ktype", "py"))
+    before = list(inp.items())
+    if c.get("via") == "probs":
+        vec = np.array([float(v) for v in inp.values()])
+
+        def make():
+            return _quiet(lambda: D.create_bitstring_distribution_from_probability_distribution(vec))
+    else:
+        def make():
+            return _quiet(lambda: D.MeasurementOutcomeDistribution(inp, normalize=c["normalize"]))
+    obj = _guard(make)
+    if isinstance(obj, str):
+        return {"res": obj, "input_intact": list(inp.items()) == before}
+    out = {"res": _canon_dict(obj.distribution_dict), "input_intact": list(inp.items()) == before}
+    if c.get("via") == "probs":
+        return out
+    # ---- history: the same dictionary is used again, then edited; the first object must not notice
+    obj2 = _guard(make)
+    out["res_second"] = obj2 if isinstance(obj2, str) else _canon_dict(obj2.distribution_dict)
+    out["res_after_second"] = _canon_dict(obj.distribution_dict)
+    keys = list(inp.keys())
+    if keys:
+        inp[keys[0]] = inp[keys[0]] + 5
+        inp[keys[-1]] = inp[keys[-1]] * 3
+    out["res_after_input_edit"] = _canon_dict(obj.distribution_dict)
+    snap = list(inp.items())
+    dd = obj.distribution_dict
+    for kk in list(dd.keys()):
+        dd[kk] = 0.375
+    out["input_intact_after_object_edit"] = list(inp.items()) == snap
+    if not isinstance(obj2, str):
+        out["second_after_object_edit"] = _canon_dict(obj2.distribution_dict)
+    return out
+
+
+def _run_saveload(D, c):
+    import json
+    src = _guard(lambda: _build_spec(D, c))
+    if isinstance(src, str):
+        return {"source": src}
+    before = _canon_dict(src.distribution_dict)
+    fd, path = tempfile.mkstemp(suffix=".json", prefix="oq_c17_")
+    os.close(fd)
+    try:
+        with warnings.catch_warnings():
+            warnings.simplefilter("ignore")
+            if c.get("many"):
+                D.save_measurement_outcome_distributions([src, src], path)
+                with open(path) as f:
+                    saved = json.load(f)["measurement_outcome_distribution"]
+                saved_items = [[kk, rat(Fraction(v))] for kk, v in saved[0].items()]
+                same = saved[0] == saved[1]
+
+                def go():
+                    l = D.load_measurement_outcome_distributions(path)
+                    assert len(l) == 2 and l[0].distribution_dict == l[1].distribution_dict
+                    return _canon_dict(l[0].distribution_dict)
+            else:
+                D.save_measurement_outcome_distribution(src, path)
+                with open(path) as f:
+                    saved = json.load(f)["measurement_outcome_distribution"]
+                saved_items = [[kk, rat(Fraction(v))] for kk, v in saved.items()]
+                same = True
+
+                def go():
+                    return _canon_dict(D.load_measurement_outcome_distribution(path).distribution_dict)
+            loaded = _guard(go)
+    finally:
+        os.remove(path)
+    return {"source": before, "source_after": _canon_dict(src.distribution_dict), "saved": saved_items,
+            "loaded": loaded, "copies_equal": same}
+
+
+_FNS = {"mmd": "compute_mmd", "nll": "compute_clipped_negative_log_likelihood", "jsd": "compute_jensen_shannon_divergence"}
+
+
+def _fl(v):
+    return float(v)
+
+
+def _run_dist(D, c):
+    P = _guard(lambda: _build(D, c["p"], True))
+    Q = _guard(lambda: _build(D, c["q"], True))
+    if isinstance(P, str) or isinstance(Q, str):
+        return {"p": P if isinstance(P, str) else "ok", "q": Q if isinstance(Q, str) else "ok"}
+    pm, pe = _dist_params(c)
+    par_m, par_e = _mk_params(pm), _mk_params(pe)  # ONE dictionary for all MMD calls, one for the others
+    bp, bq = _canon_dict(P.distribution_dict), _canon_dict(Q.distribution_dict)
+
+    def f(fn, a, b, par):
+        return _guard(lambda: _quiet(lambda: _fl(fn(a, b, par))))
+    out = {"p": bp, "q": bq,
+           "mmd_pq": f(D.compute_mmd, P, Q, par_m), "mmd_qp": f(D.compute_mmd, Q, P, par_m),
+           "mmd_pp": f(D.compute_mmd, P, P, par_m),
+           "nll_pq": f(D.compute_clipped_negative_log_likelihood, P, Q, par_e),
+           "nll_qp": f(D.compute_clipped_negative_log_likelihood, Q, P, par_e),
+           "jsd_pq": f(D.compute_jensen_shannon_divergence, P, Q, par_e),
+           "jsd_qp": f(D.compute_jensen_shannon_divergence, Q, P, par_e),
+           # asked again after everything else, with the dictionaries that were used all along
+           "mmd_pq_again": f(D.compute_mmd, P, Q, par_m),
+           "nll_pq_again": f(D.compute_clipped_negative_log_likelihood, P, Q, par_e),
+           "args_intact": bp == _canon_dict(P.distribution_dict) and bq == _canon_dict(Q.distribution_dict)}
+    return out
+
+
+def _run_hist(D, c):
+    srcs = [_guard(lambda s=s: _build_spec(D, s)) for s in c["specs"]]
+    init = [x if isinstance(x, str) else _canon_dict(x.distribution_dict) for x in srcs]
+    if any(isinstance(x, str) for x in srcs):
+        return {"init": init}
+    recs = []
+    for st in c["steps"]:
+        op, si = st[0], st[1]
+        src = srcs[si]
+        if op == "sub":
+            qs = list(st[2])
+            obj = _guard(lambda: _quiet(lambda: src.subdistribution(qs)))
+            rec = {"res": obj if isinstance(obj, str) else _canon_dict(obj.distribution_dict),
+                   "src_mid": _canon_dict(src.distribution_dict)}
+            if st[3] and not isinstance(obj, str):  # the caller edits what it got
+                rd = obj.distribution_dict
+                for kk in list(rd.keys()):
+                    rd[kk] = 0.625
+                rd[tuple([7] * len(qs))] = 0.125
+            del obj
+            rec["src"] = _canon_dict(src.distribution_dict)
+        elif op in ("swap", "scale"):
+            dd = src.distribution_dict
+            keys = list(dd.keys())
+            a = keys[st[2] % len(keys)]
+            if op == "swap":
+                b = keys[st[3] % len(keys)]
+                dd[a], dd[b] = dd[b], dd[a]
+            else:
+                dd[a] = dd[a] * 2
+            rec = {"src": _canon_dict(src.distribution_dict)}
+        elif op == "replace":  # the old object is dropped, a new one (other content) takes its place
+            srcs[si] = None
+            del src
+            srcs[si] = _build_spec(D, c["specs"][st[2]])
+            rec = {"src": _canon_dict(srcs[si].distribution_dict)}
+        else:
+            raise AssertionError("unknown step")
+        recs.append(rec)
+    return {"init": init, "steps": recs}
+
+
+def _run_pool(D, c):
+    ds = [_guard(lambda s=s: _build_spec(D, s)) for s in c["specs"]]
+    init = [x if isinstance(x, str) else _canon_dict(x.distribution_dict) for x in ds]
+    if any(isinstance(x, str) for x in ds):
+        return {"dists": init}
+    pars = [_mk_params(ps) for ps in c["params"]]  # long-lived: every step using params[i] passes the same object
+    vals = []
+    for fn, i, j, pi, via in c["steps"]:
+        f = getattr(D, _FNS[fn])
+        if via == "eval":
+            vals.append(_guard(lambda: _quiet(lambda: _fl(D.evaluate_distribution_distance(
+                ds[i], ds[j], f, distance_measure_parameters=pars[pi])))))
+        else:
+            vals.append(_guard(lambda: _quiet(lambda: _fl(f(ds[i], ds[j], pars[pi])))))
+    return {"dists": init, "vals": vals, "dists_after": [_canon_dict(x.distribution_dict) for x in ds]}
+
+
+def _run_files(D, c):
+    import json
+    ds = [_guard(lambda s=s: _build_spec(D, s)) for s in c["specs"]]
+    init = [x if isinstance(x, str) else _canon_dict(x.distribution_dict) for x in ds]
+    if any(isinstance(x, str) for x in ds):
+        return {"dists": init}
+    paths = []
+    for _ in range(2):
+        fd, path = tempfile.mkstemp(suffix=".json", prefix="oq_c17_")
+        os.close(fd)
+        paths.append(path)
+    recs = []
+    last = []
+
+    def raw(path):
+        with open(path) as f:
+            return json.load(f)["measurement_outcome_distribution"]
+
+    def load_with(fn, path, mode):
+        if mode == "fobj":
+            with open(path) as f:
+                return fn(f)
+        return fn(path)
+    try:
+        for st in c["steps"]:
+            op = st[0]
+            if op == "save":
+                _quiet(lambda: D.save_measurement_outcome_distribution(ds[st[2]], paths[st[1]]))
+                recs.append({"saved": [[kk, rat(Fraction(v))] for kk, v in raw(paths[st[1]]).items()]})
+            elif op == "saves":
+                _quiet(lambda: D.save_measurement_outcome_distributions([ds[i] for i in st[2]], paths[st[1]]))
+                recs.append({"saved": [[[kk, rat(Fraction(v))] for kk, v in one.items()] for one in raw(paths[st[1]])]})
+            elif op == "load":
+                obj = _guard(lambda: _quiet(lambda: load_with(D.load_measurement_outcome_distribution, paths[st[1]], st[2])))
+                last = [] if isinstance(obj, str) else [obj]
+                recs.append({"loaded": obj if isinstance(obj, str) else _canon_dict(obj.distribution_dict)})
+            elif op == "loads":
+                objs = _guard(lambda: _quiet(lambda: load_with(D.load_measurement_outcome_distributions, paths[st[1]], st[2])))
+                last = [] if isinstance(objs, str) else list(objs)
+                recs.append({"loaded": objs if isinstance(objs, str) else [_canon_dict(o.distribution_dict) for o in objs]})
+            elif op == "poke":  # the caller edits what the loader returned
+                for o in last:
+                    for kk in list(o.distribution_dict.keys()):
+                        o.distribution_dict[kk] = 0.875
+                recs.append({})
+            else:
+                raise AssertionError("unknown step")
+    finally:
+        for path in paths:
+            os.remove(path)
+    return {"dists": init, "steps": recs, "dists_after": [_canon_dict(x.distribution_dict) for x in ds]}
+
+
 # ---------------------------------------------------------------- model requests / comparison
+def _track_hist(c, out):
+    """[(step, record, content of the addressed object when the step starts)].  The content is followed from the
+    OBSERVED state of the implementation's objects: initial dictionaries, then whatever `distribution_dict` shows
+    after an edit step of the history (edits are made by the history itself, not by the library)"""
+    cur = list(out["init"])
+    res = []
+    for st, rec in zip(c["steps"], out["steps"]):
+        res.append((st, rec, cur[st[1]]))
+        if st[0] != "sub":
+            cur[st[1]] = rec["src"]
+    return res
+
+
+def _pool_pairs(c):
+    pairs = []
+    for _fn, i, j, _pi, _via in c["steps"]:
+        if (i, j) not in pairs:
+            pairs.append((i, j))
+    return pairs
+
+
+def _files_used(c):
+    used = []
+    for st in c["steps"]:
+        for i in ([st[2]] if st[0] == "save" else st[2] if st[0] == "saves" else []):
+            if i not in used:
+                used.append(i)
+    return used
+
+
 def requests(c, out):
     k = c["kind"]
     if k == "construct":
@@ -413,6 +1004,18 @@ def requests(c, out):
         return [("saveload", {"items": c["items"], "normalize": c["normalize"]})]
     if k == "dist":
         return [("distdata", {"p": c["p"], "q": c["q"]})]
+    if k == "hist":
+        reqs = [("construct", {"items": s["items"], "normalize": s.get("normalize", True)}) for s in c["specs"]]
+        if "steps" in out:
+            for st, _rec, before in _track_hist(c, out):
+                if st[0] == "sub":  # the model answers from the content the object has at that moment
+                    reqs.append(("subdist", {"items": before, "normalize": False, "qubits": st[2]}))
+        return reqs
+    if k == "pool":
+        return [("distdata", {"p": c["specs"][i]["items"], "q": c["specs"][j]["items"]}) for i, j in _pool_pairs(c)]
+    if k == "files":
+        return [("saveload", {"items": c["specs"][i]["items"], "normalize": c["specs"][i].get("normalize", True)})
+                for i in _files_used(c)]
     return []
 
 
@@ -453,34 +1056,83 @@ def _close(a, b, tol=_TOL):
     return abs(a - b) <= tol * max(1.0, abs(a), abs(b))
 
 
+def _cmp_num(got, want, tol=_TOL):
+    """implementation value vs the value computed from the model's data (nan / inf never agree with a number)"""
+    if isinstance(got, str) or isinstance(want, str):
+        return got == want
+    if not (math.isfinite(got) and math.isfinite(want)):
+        return False
+    return abs(got - want) <= tol * max(1.0, abs(got), abs(want))
+
+
+def _model_values(r, ps_m, ps_e):
+    """the seven distance values recomputed from the model's discrete data (union of supports, integer codes, value
+    vectors) with math.exp / math.log; `None` for MMD entries of registers the model's arithmetic does not cover"""
+    rows = r["rows"]
+    t = [float(unrat(x[1])) for x in rows]
+    m = [float(unrat(x[2])) for x in rows]
+    sigma, _ = _sigma_eps(ps_m)
+    _, eps = _sigma_eps(ps_e)
+    wide = False  # since the repair b6e2a42 the library's MMD is exact on wide registers too: compared like any other
+    if wide:
+        want = {"mmd_pq": None, "mmd_qp": None, "mmd_pp": None}
+    elif isinstance(r["codes"], str):
+        want = {"mmd_pq": r["codes"], "mmd_qp": r["codes"]}
+    else:
+        want = {"mmd_pq": _mmd(r["codes"], t, m, sigma), "mmd_qp": _mmd(r["codes"], m, t, sigma)}
+    if not wide:
+        want["mmd_pp"] = 0.0 if r["self_ok"] else "err:value"  # theorem mmd_self: defined => 0
+    want["nll_pq"] = _nll(t, m, eps)
+    want["nll_qp"] = _nll(m, t, eps)
+    want["jsd_pq"] = want["nll_pq"] / 2 + want["nll_qp"] / 2
+    want["jsd_qp"] = want["jsd_pq"]
+    return want
+
+
+def _cmp_sources(out_src, model_src):
+    return None if out_src == model_src else f"source: impl {out_src} model {model_src}"
+
+
 def compare(c, out, resp):
+    for r in resp:
+        if isinstance(r, dict) and "driver_error" in r:
+            return "driver error: " + r["driver_error"]
     r = resp[0]
-    if isinstance(r, dict) and "driver_error" in r:
-        return "driver error: " + r["driver_error"]
     if "exc" in out:
         return f"implementation raised {out}"
     k = c["kind"]
     ex = bool(c.get("exact"))
     if k == "construct":
         msg = _same_dict(out["res"], r, ex)
-        return msg and "constructor: " + msg
+        if msg:
+            return "constructor: " + msg
+        if "res_second" in out:
+            msg = _same_dict(out["res_second"], r, ex)
+            if msg:
+                return "constructor, second object from the same dictionary: " + msg
+            msg = _same_dict(out["res_after_input_edit"], r, ex) or _same_dict(out["res_after_second"], r, ex)
+            if msg:
+                return "constructor, first object looked at again later: " + msg
+        return None
     if k == "subdist":
         if isinstance(out.get("source"), str) or isinstance(r.get("source"), str):
-            return None if out.get("source") == r.get("source") else f"source: impl {out.get('source')} model {r.get('source')}"
+            return _cmp_sources(out.get("source"), r.get("source"))
         for a, b, name in ((out["source"], r["source"], "source"), (out["source_after"], r["source_after"], "source after the call"),
-                           (out["res"], r["result"], "subdistribution")):
+                           (out["res"], r["result"], "subdistribution"),
+                           (out["res_again"], r["result"], "subdistribution asked a second time"),
+                           (out["source_after_again"], r["source_after"], "source after the second call")):
             msg = _same_dict(a, b, ex)
             if msg:
                 return f"{name}: {msg}"
         return None
     if k == "saveload":
         if isinstance(out.get("source"), str) or isinstance(r.get("source"), str):
-            return None if out.get("source") == r.get("source") else f"source: impl {out.get('source')} model {r.get('source')}"
+            return _cmp_sources(out.get("source"), r.get("source"))
         msg = _same_dict(out["source"], r["source"], ex)
         if msg:
             return "source: " + msg
-        if [s for s, _ in out["saved"]] != [s for s, _ in r["saved"]]:
-            return f"saved keys: impl {[s for s, _ in out['saved']]} model {[s for s, _ in r['saved']]}"
+        if [x for x, _ in out["saved"]] != [x for x, _ in r["saved"]]:
+            return f"saved keys: impl {[x for x, _ in out['saved']]} model {[x for x, _ in r['saved']]}"
         if [unrat(v) for _, v in out["saved"]] != [unrat(v) for _, v in out["source"]]:
             return "saved values differ from the stored values"
         msg = _same_dict(out["loaded"], r["loaded"], ex)
@@ -495,27 +1147,95 @@ def compare(c, out, resp):
         union_impl = sorted(set(map(tuple, [kk for kk, _ in out["p"]])) | set(map(tuple, [kk for kk, _ in out["q"]])))
         if sorted(tuple(x[0]) for x in rows) != union_impl:
             return f"union of supports: impl {union_impl} model {[x[0] for x in rows]}"
-        t = [float(unrat(x[1])) for x in rows]
-        m = [float(unrat(x[2])) for x in rows]
-        sg = c["sigma"]
-        sigma = [float(unrat(s)) for s in sg] if isinstance(sg, list) else float(unrat(sg))
-        eps = float(unrat(c["eps"]))
-        if isinstance(r["codes"], str):
-            want = {"mmd_pq": r["codes"], "mmd_qp": r["codes"]}
-        else:
-            want = {"mmd_pq": _mmd(r["codes"], t, m, sigma), "mmd_qp": _mmd(r["codes"], m, t, sigma)}
-        want["mmd_pp"] = 0.0 if r["self_ok"] else "err:value"  # theorem mmd_self: defined => 0
-        want["nll_pq"] = _nll(t, m, eps)
-        want["nll_qp"] = _nll(m, t, eps)
-        want["jsd_pq"] = want["nll_pq"] / 2 + want["nll_qp"] / 2
-        want["jsd_qp"] = want["jsd_pq"]
+        pm, pe = _dist_params(c)
+        want = _model_values(r, pm, pe)
+        want["mmd_pq_again"] = want["mmd_pq"]
+        want["nll_pq_again"] = want["nll_pq"]
         for name, v in want.items():
+            if v is None:
+                continue
             if name == "mmd_pp" and isinstance(out[name], float) and not isinstance(v, str):
-                if abs(out[name]) > 1e-12:
+                if not abs(out[name]) <= 1e-12:
                     return f"mmd(p,p): impl {out[name]} model 0"
                 continue
-            if not _close(out[name], v):
+            if not _cmp_num(out[name], v):
                 return f"{name}: impl {out[name]} value from the model's data {v}"
+        return None
+    if k == "hist":
+        n = len(c["specs"])
+        for i in range(n):
+            msg = _same_dict(out["init"][i], resp[i], ex)
+            if msg:
+                return f"object {i}: {msg}"
+        if "steps" not in out:
+            return None
+        at = n
+        for idx, (st, rec, _before) in enumerate(_track_hist(c, out)):
+            if st[0] != "sub":
+                continue
+            r = resp[at]
+            at += 1
+            if isinstance(r.get("source"), str):
+                return f"step {idx}: the model rejects the content {_before} of the object: {r['source']}"
+            for a, b, name in ((rec["res"], r["result"], "subdistribution"),
+                               (rec["src_mid"], r["source_after"], "source after the call")):
+                msg = _same_dict(a, b, ex)
+                if msg:
+                    return f"step {idx} {st} of the history: {name}: {msg}"
+        return None
+    if k == "pool":
+        if "vals" not in out:
+            ok_model = all("rows" in x for x in resp)
+            return None if not ok_model else f"construction of the pool: impl {out.get('dists')} model accepts all"
+        by = dict(zip(_pool_pairs(c), resp))
+        for idx, (st, val) in enumerate(zip(c["steps"], out["vals"])):
+            fn, i, j, pi, _via = st
+            r = by[(i, j)]
+            if "rows" not in r:
+                return f"construction of the pool: model {r}"
+            want = _model_values(r, c["params"][pi], c["params"][pi])
+            v = want["mmd_pq" if fn == "mmd" else "nll_pq" if fn == "nll" else "jsd_pq"]
+            if v is None:
+                continue
+            if not _cmp_num(val, v):
+                return f"step {idx} {st} of the history: impl {val} value from the model's data {v}"
+        return None
+    if k == "files":
+        if "steps" not in out:
+            return None if any(isinstance(x.get("source"), str) for x in resp) else \
+                f"construction: impl {out.get('dists')} model accepts all"
+        by = dict(zip(_files_used(c), resp))
+        for i, r in by.items():
+            if isinstance(r.get("source"), str):
+                return f"object {i}: impl accepted, model {r['source']}"
+            msg = _same_dict(out["dists"][i], r["source"], ex)
+            if msg:
+                return f"object {i}: {msg}"
+        content = {}
+        for idx, (st, rec) in enumerate(zip(c["steps"], out["steps"])):
+            op = st[0]
+            if op in ("save", "saves"):
+                ids = [st[2]] if op == "save" else list(st[2])
+                content[st[1]] = ids
+                saved = [rec["saved"]] if op == "save" else rec["saved"]
+                if len(saved) != len(ids):
+                    return f"step {idx} {st}: {len(saved)} dictionaries written for {len(ids)} distributions"
+                for i, sv in zip(ids, saved):
+                    if [x for x, _ in sv] != [x for x, _ in by[i]["saved"]]:
+                        return f"step {idx} {st}: saved keys: impl {[x for x, _ in sv]} model {[x for x, _ in by[i]['saved']]}"
+                    if [unrat(v) for _, v in sv] != [unrat(v) for _, v in out["dists"][i]]:
+                        return f"step {idx} {st}: saved values differ from the stored values of object {i}"
+            elif op in ("load", "loads"):
+                ids = content[st[1]]
+                got = [rec["loaded"]] if op == "load" else rec["loaded"]
+                if isinstance(got, str):
+                    got = [got] * len(ids)
+                if len(got) != len(ids):
+                    return f"step {idx} {st}: {len(got)} distributions loaded, {len(ids)} were saved"
+                for i, g in zip(ids, got):
+                    msg = _same_dict(g, by[i]["loaded"], ex)
+                    if msg:
+                        return f"step {idx} {st}: loaded (object {i}): {msg}"
         return None
     return None
 
@@ -537,6 +1257,12 @@ def oracle(c, out):
         return _oracle_saveload(c, out)
     if k == "dist":
         return _oracle_dist(c, out)
+    if k == "hist":
+        return _oracle_hist(c, out)
+    if k == "pool":
+        return _oracle_pool(c, out)
+    if k == "files":
+        return _oracle_files(c, out)
     return None
 
 
@@ -561,7 +1287,8 @@ def _oracle_construct(c, out):
     cls, keys, vals = _classify_input(c["items"])
     res = out["res"]
     if not out.get("input_intact", True):
-        return ("construct-mutates-input", "the constructor modified the dictionary passed to it")
+        return ("construct-mutates-input", f"the constructor (normalize={c['normalize']}) modified the dictionary "
+                f"{c['items']} passed to it")
     if cls == "invalid":
         if not isinstance(res, str):
             why = ("empty" if not keys else "negative value" if any(v < 0 for v in vals)
@@ -578,6 +1305,16 @@ def _oracle_construct(c, out):
     s = sum(float(v) for _, v in got)
     if c["normalize"] and abs(s - 1) > 2e-9:
         return ("construct-not-normalised", f"stored values sum to {s!r} with normalisation on ({c['items']})")
+    if cls == "valid" and c.get("via") == "probs":
+        tot = sum(vals)
+        gm, wm = dict(got), dict(zip(keys, vals))
+        if len(gm) != len(got) or not set(gm) <= set(wm):
+            return ("construct-keys", f"stored keys {[kk for kk, _ in got]} for the probability vector {vals}")
+        for kk, v in wm.items():
+            if abs(float(gm.get(kk, 0)) - float(v / tot)) > 2e-9:
+                return ("construct-proportions", f"probability vector {[float(x) for x in vals]}: value at {kk} is "
+                        f"{float(gm.get(kk, 0))!r}, proportional share is {float(v / tot)!r}")
+        return None
     if cls == "valid":
         if [kk for kk, _ in got] != keys:
             return ("construct-keys", f"stored keys {[kk for kk, _ in got]} differ from the input keys {keys}")
@@ -586,11 +1323,77 @@ def _oracle_construct(c, out):
             want = v / tot if c["normalize"] else v
             if abs(float(g) - float(want)) > 2e-9 * max(1.0, abs(float(want))):
                 return ("construct-proportions", f"value at {kk} is {float(g)!r}, proportional share is {float(want)!r}")
+    # "always holds ...": the object keeps its content whatever happens later to the dictionary it was built from,
+    # and two objects built from one dictionary do not share state
+    if "res_second" in out and cls == "valid":
+        if out["res_second"] != res:
+            return ("construct-not-repeatable", f"the same dictionary {c['items']} (normalize={c['normalize']}) gave {res} the "
+                    f"first time and {out['res_second']} the second time")
+        if out["res_after_second"] != res:
+            return ("construct-aliases-input", f"object built from {c['items']} held {res}; after a second object was built "
+                    f"from the same dictionary it holds {out['res_after_second']}")
+        if out["res_after_input_edit"] != res:
+            return ("construct-aliases-input", f"object built from {c['items']} held {res}; after the caller updated its own "
+                    f"dictionary the object holds {out['res_after_input_edit']}")
+        if out.get("second_after_object_edit", res) != res:
+            return ("construct-aliases-input", f"two objects built from {c['items']}: editing the first one's "
+                    f"distribution_dict changed the second to {out['second_after_object_edit']}")
+        if not out.get("input_intact_after_object_edit", True):
+            return ("construct-aliases-input", f"editing the distribution_dict of the object built from {c['items']} "
+                    "changed the caller's dictionary")
     return None
 
 
 def _multidigit(canon):
     return any(e >= 10 for kk, _ in canon for e in kk)
+
+
+def _show_specs(specs):
+    return "; ".join(f"d{i} = MeasurementOutcomeDistribution({sp['items']}, normalize={sp.get('normalize', True)})"
+                     for i, sp in enumerate(specs))
+
+
+def _show_hist_steps(steps):
+    out = []
+    for st in steps:
+        if st[0] == "sub":
+            out.append(f"r = d{st[1]}.subdistribution({st[2]})" + (", r.distribution_dict edited" if st[3] else ""))
+        elif st[0] == "swap":
+            out.append(f"values no. {st[2]} and {st[3]} (mod size) of d{st[1]}.distribution_dict swapped")
+        elif st[0] == "scale":
+            out.append(f"value no. {st[2]} (mod size) of d{st[1]}.distribution_dict doubled")
+        else:
+            out.append(f"d{st[1]} = a new object built like d{st[2]}")
+    return "; ".join(out) if out else "nothing"
+
+
+def _judge_marginal(src, qs, res, ctx=""):
+    """the marginal sentence for one answer `res` of subdistribution(qs) on an object whose content is `src`"""
+    w = len(src[0][0])
+    if any(q < 0 for q in qs):
+        return None
+    bad = (not qs) or len(set(qs)) != len(qs) or any(q >= w for q in qs)
+    if bad:
+        if not isinstance(res, str):
+            return ("subdistribution-accepts-invalid-qubits", f"{ctx}qubit list {qs} on width {w} accepted: {res}")
+        return None
+    sig = "subdistribution-multidigit-entry" if _multidigit(src) else "subdistribution-marginal"
+    if isinstance(res, str):
+        return (sig, f"{ctx}subdistribution({qs}) of {src} raised {res}")
+    want = {}
+    for kk, v in src:
+        nk = tuple(kk[q] for q in qs)
+        want[nk] = want.get(nk, Fraction(0)) + unrat(v)
+    got = _as_map(res)
+    if len(got) != len(res):
+        return (sig, f"{ctx}duplicate outcomes in the marginal {res}")
+    if set(got) != set(want):
+        return (sig, f"{ctx}marginal of {src} on {qs} has outcomes {sorted(got)}, the projections are {sorted(want)}")
+    for nk, v in want.items():
+        if abs(float(got[nk]) - float(v)) > 1e-12 * max(1.0, float(v)):
+            return (sig, f"{ctx}marginal of {src} on {qs} at {nk} is {float(got[nk])!r}, the sum of the projecting "
+                    f"outcomes is {float(v)!r}")
+    return None
 
 
 def _oracle_subdist(c, out):
@@ -603,31 +1406,56 @@ def _oracle_subdist(c, out):
     if out["source_after"] != src:
         return ("subdistribution-mutates-source",
                 f"source was {src} before and {out['source_after']} after subdistribution({c['qubits']})")
+    f = _judge_marginal(src, c["qubits"], out["res"])
+    if f:
+        return f
+    if "res_again" in out:
+        if out["source_after_again"] != src:
+            return ("subdistribution-mutates-source",
+                    f"source was {src} before and {out['source_after_again']} after two calls of subdistribution({c['qubits']})")
+        return _judge_marginal(src, c["qubits"], out["res_again"], "asked a second time on the same object: ")
+    return None
+
+
+def _oracle_hist(c, out):
+    for sp, x in zip(c["specs"], out["init"]):
+        if isinstance(x, str):
+            cls, _, _ = _classify_input(sp["items"])
+            if cls == "valid":
+                return ("construct-rejects-valid", f"well-formed input {sp['items']} rejected with {x}")
+    if "steps" not in out:
+        return None
+    for idx, (st, rec, before) in enumerate(_track_hist(c, out)):
+        ctx = f"{_show_specs(c['specs'])}; then {_show_hist_steps(c['steps'][:idx])}; now d{st[1]}: "
+        if st[0] == "sub":
+            if rec["src_mid"] != before:
+                return ("subdistribution-mutates-source",
+                        f"{ctx}content was {before} before and {rec['src_mid']} after subdistribution({st[2]})")
+            f = _judge_marginal(before, st[2], rec["res"], ctx)
+            if f:
+                return f
+            if rec["src"] != before:
+                return ("subdistribution-result-shares-state",
+                        f"{ctx}editing the object returned by subdistribution({st[2]}) changed the source from {before} "
+                        f"to {rec['src']}")
+        elif st[0] == "replace":
+            if rec["src"] != out["init"][st[2]]:
+                return ("construct-not-repeatable", f"{ctx}a second object built from {c['specs'][st[2]]['items']} holds "
+                        f"{rec['src']}, the first one held {out['init'][st[2]]}")
+    return None
+
+
+def _judge_roundtrip(src, ld, what):
+    """the save/load sentence for one loaded dictionary `ld` of a saved distribution whose content is `src`"""
+    tot = sum(float(unrat(v)) for _, v in src)
+    if not math.isclose(tot, 1):
+        return None  # the sentence is about normalised distributions
     w = len(src[0][0])
-    qs = c["qubits"]
-    if any(q < 0 for q in qs):
-        return None
-    bad = (not qs) or len(set(qs)) != len(qs) or any(q >= w for q in qs)
-    res = out["res"]
-    if bad:
-        if not isinstance(res, str):
-            return ("subdistribution-accepts-invalid-qubits", f"qubit list {qs} on width {w} accepted: {res}")
-        return None
-    sig = "subdistribution-multidigit-entry" if _multidigit(src) else "subdistribution-marginal"
-    if isinstance(res, str):
-        return (sig, f"subdistribution({qs}) of {src} raised {res}")
-    want = {}
-    for kk, v in src:
-        nk = tuple(kk[q] for q in qs)
-        want[nk] = want.get(nk, Fraction(0)) + unrat(v)
-    got = _as_map(res)
-    if len(got) != len(res):
-        return (sig, f"duplicate outcomes in the marginal {res}")
-    if set(got) != set(want):
-        return (sig, f"marginal of {src} on {qs} has outcomes {sorted(got)}, the projections are {sorted(want)}")
-    for nk, v in want.items():
-        if abs(float(got[nk]) - float(v)) > 1e-12 * max(1.0, float(v)):
-            return (sig, f"marginal at {nk} is {float(got[nk])!r}, the sum of the projecting outcomes is {float(v)!r}")
+    sig = "single-subsystem-multidigit-key" if (w == 1 and _multidigit(src)) else "save-load-roundtrip"
+    if isinstance(ld, str):
+        return (sig, f"{what}: saved {src}; loading raised {ld}")
+    if _as_map(ld) != _as_map(src) or len(ld) != len(src):
+        return (sig, f"{what}: saved {src}; loaded {ld}")
     return None
 
 
@@ -642,21 +1470,111 @@ def _oracle_saveload(c, out):
         return ("save-mutates-source", "saving modified the distribution")
     if not out.get("copies_equal", True):
         return ("save-load-roundtrip", "two copies of one distribution were written differently")
-    s = sum(float(unrat(v)) for _, v in src)
-    if not math.isclose(s, 1):
-        return None  # the sentence is about normalised distributions
-    w = len(src[0][0])
-    sig = "single-subsystem-multidigit-key" if (w == 1 and _multidigit(src)) else "save-load-roundtrip"
-    ld = out["loaded"]
-    if isinstance(ld, str):
-        return (sig, f"saved {src} as keys {[x for x, _ in out['saved']]}; loading raised {ld}")
-    if _as_map(ld) != _as_map(src) or len(ld) != len(src):
-        return (sig, f"saved {src}; loaded {ld}")
+    return _judge_roundtrip(src, out["loaded"], f"written as keys {[x for x, _ in out['saved']]}")
+
+
+def _oracle_files(c, out):
+    ds = out["dists"]
+    for sp, x in zip(c["specs"], ds):
+        if isinstance(x, str):
+            cls, _, _ = _classify_input(sp["items"])
+            if cls == "valid":
+                return ("construct-rejects-valid", f"well-formed input {sp['items']} rejected with {x}")
+    if "steps" not in out:
+        return None
+    content = {}
+    for idx, (st, rec) in enumerate(zip(c["steps"], out["steps"])):
+        op = st[0]
+        if op == "save":
+            content[st[1]] = [st[2]]
+        elif op == "saves":
+            content[st[1]] = list(st[2])
+        elif op in ("load", "loads"):
+            ids = content[st[1]]
+            what = (f"{_show_specs(c['specs'])}; steps [op, file no., objects / how] {c['steps'][:idx]}, then {st} "
+                    f"(the file holds {['d%d' % i for i in ids]})")
+            got = rec["loaded"]
+            if op == "load":
+                got = [got]
+            elif isinstance(got, str):
+                got = [got] * len(ids)
+            if len(got) != len(ids):
+                if all(math.isclose(sum(float(unrat(v)) for _, v in ds[i]), 1) for i in ids):
+                    return ("save-load-roundtrip", f"{what}: {len(ids)} distributions saved, {len(got)} loaded")
+                continue
+            for i, g in zip(ids, got):
+                f = _judge_roundtrip(ds[i], g, what)
+                if f:
+                    return f
+    if out["dists_after"] != ds:
+        return ("save-mutates-source", f"saving / loading modified a distribution: {ds} -> {out['dists_after']}")
     return None
 
 
 def _is_bits(canon):
     return all(len(kk) >= 1 and all(e in (0, 1) for e in kk) for kk, _ in canon)
+
+
+def _vectors(P, Q):
+    union = sorted(set(P) | set(Q))
+    return union, [float(P.get(kk, 0)) for kk in union], [float(Q.get(kk, 0)) for kk in union]
+
+
+def _judge_mmd(val, P, Q, sigma, what):
+    """the MMD sentences for one value of compute_mmd between the distributions P and Q (outcome -> probability):
+    defined, a non-negative number, zero between equal distributions, and the quadratic form of the difference"""
+    union, t, m = _vectors(P, Q)
+    bits = all(len(kk) >= 1 and all(e in (0, 1) for e in kk) for kk in union)
+    wide = bits and len(union[0]) >= 32
+
+    def sg(x):
+        return "mmd-wide-register-overflow" if wide else x
+    if isinstance(val, str):
+        return (sg("mmd-raises" if bits else "mmd-nonbinary-outcome"), f"compute_mmd raised {val}: {what}")
+    if not math.isfinite(val):
+        return (sg("mmd-not-a-number"), f"compute_mmd returned {val!r}: {what}")
+    if val < -1e-12:
+        return (sg("mmd-negative"), f"mmd = {val!r} < 0: {what}")
+    if t == m and abs(val) > 1e-12:
+        return (sg("mmd-self-nonzero"), f"mmd between equal distributions = {val!r}: {what}")
+    if bits:
+        codes = [int("".join(map(str, kk)), 2) for kk in union]
+        ref = _mmd(codes, t, m, sigma)
+        if abs(ref - val) > _TOL * max(1.0, abs(ref)):
+            return (sg("mmd-value"), f"mmd = {val!r}, quadratic form of the difference = {ref!r}: {what}")
+    return None
+
+
+def _judge_sym(a, b, sig, what, wide=False):
+    if isinstance(a, str) or isinstance(b, str):
+        return None  # judged by the per-value clauses
+    if a != b and not abs(a - b) <= _TOL * max(1.0, abs(a)):  # (nan differs from everything, itself included)
+        return ("mmd-wide-register-overflow" if wide else sig, f"d(p,q)={a!r} d(q,p)={b!r}: {what}")
+    return None
+
+
+def _judge_nll(val, a, b, eps, n, what):
+    """clipped NLL of target vector `a` under model vector `b`: at least the entropy (up to the clipping constant),
+    and the defining sum"""
+    if isinstance(val, str):
+        return ("nll-raises", f"clipped log-likelihood raised {val}: {what}")
+    ent = -sum(x * math.log(x) for x in a if x > 0)
+    bound = ent + (sum(a) - sum(b)) - n * eps
+    if not math.isfinite(val) or val < bound - _TOL * max(1.0, abs(bound)):
+        return ("nll-below-entropy", f"clipped NLL = {val!r} < entropy - n*eps = {bound!r}: {what}")
+    ref = _nll(a, b, eps)
+    if abs(ref - val) > _TOL * max(1.0, abs(ref)):
+        return ("nll-value", f"clipped NLL = {val!r}, definition gives {ref!r}: {what}")
+    return None
+
+
+def _judge_jsd(val, t, m, eps, what):
+    if isinstance(val, str):
+        return ("nll-raises", f"divergence raised {val}: {what}")
+    ref = _nll(t, m, eps) / 2 + _nll(m, t, eps) / 2
+    if not math.isfinite(val) or abs(val - ref) > _TOL * max(1.0, abs(ref)):
+        return ("jsd-value", f"jsd = {val!r} is not the mean of the two clipped log-likelihoods ({ref!r}): {what}")
+    return None
 
 
 def _oracle_dist(c, out):
@@ -669,44 +1587,82 @@ def _oracle_dist(c, out):
     if not out.get("args_intact", True):
         return ("distance-mutates-argument", "a distance function modified one of its arguments")
     P, Q = _as_map(out["p"]), _as_map(out["q"])
-    sg = c["sigma"]
-    sigma = [float(unrat(s)) for s in sg] if isinstance(sg, list) else float(unrat(sg))
-    eps = float(unrat(c["eps"]))
-    union = sorted(set(P) | set(Q))
-    t = [float(P.get(kk, 0)) for kk in union]
-    m = [float(Q.get(kk, 0)) for kk in union]
+    pm, pe = _dist_params(c)
+    sigma, _ = _sigma_eps(pm)
+    _, eps = _sigma_eps(pe)
+    union, t, m = _vectors(P, Q)
     bits = _is_bits(out["p"]) and _is_bits(out["q"])
-    mm = [out["mmd_pq"], out["mmd_qp"], out["mmd_pp"]]
-    if any(isinstance(v, str) for v in mm):
-        sig = "mmd-raises" if bits else "mmd-nonbinary-outcome"
-        return (sig, f"compute_mmd raised ({mm}) on distributions {out['p']} / {out['q']}")
-    if abs(mm[0] - mm[1]) > _TOL * max(1.0, abs(mm[0])):
-        return ("mmd-not-symmetric", f"mmd(p,q)={mm[0]!r} mmd(q,p)={mm[1]!r}")
-    if mm[0] < -1e-12 or mm[1] < -1e-12:
-        return ("mmd-negative", f"mmd(p,q)={mm[0]!r} < 0 for sigma={sigma}")
-    if abs(mm[2]) > 1e-12:
-        return ("mmd-self-nonzero", f"mmd(p,p)={mm[2]!r}")
-    if bits:
-        codes = [int("".join(map(str, kk)), 2) for kk in union]
-        ref = _mmd(codes, t, m, sigma)
-        if abs(ref - mm[0]) > _TOL * max(1.0, abs(ref)):
-            return ("mmd-value", f"mmd(p,q)={mm[0]!r}, quadratic form of the difference = {ref!r}")
-    nl = [out["nll_pq"], out["nll_qp"], out["jsd_pq"], out["jsd_qp"]]
-    if any(isinstance(v, str) for v in nl):
-        return ("nll-raises", f"log-likelihood / divergence raised: {nl}")
-    for val, a, b, name in ((nl[0], t, m, "p under q"), (nl[1], m, t, "q under p")):
-        ent = -sum(x * math.log(x) for x in a if x > 0)
-        bound = ent + (sum(a) - sum(b)) - len(union) * eps
-        if val < bound - _TOL * max(1.0, abs(bound)):
-            return ("nll-below-entropy", f"clipped NLL of {name} = {val!r} < entropy - n*eps = {bound!r}")
-        ref = _nll(a, b, eps)
-        if abs(ref - val) > _TOL * max(1.0, abs(ref)):
-            return ("nll-value", f"clipped NLL of {name} = {val!r}, definition gives {ref!r}")
-    if abs(nl[2] - nl[3]) > _TOL * max(1.0, abs(nl[2])):
-        return ("jsd-not-symmetric", f"jsd(p,q)={nl[2]!r} jsd(q,p)={nl[3]!r}")
-    if abs(nl[2] - (nl[0] / 2 + nl[1] / 2)) > _TOL * max(1.0, abs(nl[2])):
-        return ("jsd-value", f"jsd(p,q)={nl[2]!r} is not the mean of the two log-likelihoods {nl[0]!r}, {nl[1]!r}")
-    return None
+    wide = bits and len(union[0]) >= 32
+    what = f"p={out['p']} q={out['q']} sigma={sigma} epsilon={eps}"
+
+    def mmd_part():
+        mm = [out["mmd_pq"], out["mmd_qp"], out["mmd_pp"], out.get("mmd_pq_again", out["mmd_pq"])]
+        if any(isinstance(v, str) for v in mm):
+            sig = "mmd-wide-register-overflow" if wide else "mmd-raises" if bits else "mmd-nonbinary-outcome"
+            return (sig, f"compute_mmd raised ({mm}) on distributions {out['p']} / {out['q']}")
+        return (_judge_sym(mm[0], mm[1], "mmd-not-symmetric", "mmd, " + what, wide)
+                or _judge_mmd(mm[0], P, Q, sigma, "mmd(p,q), " + what)
+                or _judge_mmd(mm[1], Q, P, sigma, "mmd(q,p), " + what)
+                or _judge_mmd(mm[2], P, P, sigma, "mmd(p,p), " + what)
+                or _judge_mmd(mm[3], P, Q, sigma, "mmd(p,q) asked again with the same parameter dictionary, " + what))
+
+    def nll_part():
+        nl = [out["nll_pq"], out["nll_qp"], out["jsd_pq"], out["jsd_qp"], out.get("nll_pq_again", out["nll_pq"])]
+        if any(isinstance(v, str) for v in nl):
+            return ("nll-raises", f"log-likelihood / divergence raised: {nl}")
+        return (_judge_nll(nl[0], t, m, eps, len(union), "p under q, " + what)
+                or _judge_nll(nl[1], m, t, eps, len(union), "q under p, " + what)
+                or _judge_sym(nl[2], nl[3], "jsd-not-symmetric", "jsd, " + what)
+                or _judge_jsd(nl[2], t, m, eps, "jsd(p,q), " + what)
+                or _judge_jsd(nl[3], m, t, eps, "jsd(q,p), " + what)
+                or _judge_nll(nl[4], t, m, eps, len(union),
+                              "p under q asked again with the same parameter dictionary, " + what))
+    if wide or not bits:  # the MMD failure of these classes is a known finding: let it not hide the other sentences
+        return nll_part() or mmd_part()
+    return mmd_part() or nll_part()
+
+
+def _oracle_pool(c, out):
+    for sp, x in zip(c["specs"], out["dists"]):
+        if isinstance(x, str):
+            cls, _, _ = _classify_input(sp["items"])
+            if cls == "valid":
+                return ("construct-rejects-valid", f"well-formed input {sp['items']} rejected with {x}")
+    if "vals" not in out:
+        return None
+    Ds = [_as_map(d) for d in out["dists"]]
+    known_first = None
+    seen = {}
+    for idx, (st, val) in enumerate(zip(c["steps"], out["vals"])):
+        fn, i, j, pi, via = st
+        sigma, eps = _sigma_eps(c["params"][pi])
+        union, t, m = _vectors(Ds[i], Ds[j])
+        what = (f"{_show_specs(c['specs'])}; parameter dictionaries par0..par{len(c['params']) - 1} = {c['params']} "
+                f"(each ONE object, re-used); after the calls "
+                f"{[f'{a}(d{b},d{d},par{e})' for a, b, d, e, _ in c['steps'][:idx]]}: {fn}(d{i}, d{j}, par{pi})"
+                + (" through evaluate_distribution_distance" if via == "eval" else ""))
+        wide = len(union[0]) >= 32
+        back = seen.get((fn, j, i, pi))
+        if fn == "mmd":
+            f = _judge_mmd(val, Ds[i], Ds[j], sigma, what)
+            if not f and back is not None:
+                f = _judge_sym(back, val, "mmd-not-symmetric", what, wide)
+        elif fn == "nll":
+            f = _judge_nll(val, t, m, eps, len(union), what)
+        else:
+            f = _judge_jsd(val, t, m, eps, what)
+            if not f and back is not None:
+                f = _judge_sym(back, val, "jsd-not-symmetric", what)
+        if f:
+            if f[0] in ("mmd-wide-register-overflow", "mmd-nonbinary-outcome"):
+                known_first = known_first or f
+            else:
+                return f
+        seen[(fn, i, j, pi)] = val
+    if out["dists_after"] != out["dists"]:
+        return ("distance-mutates-argument", f"a distance function modified a distribution: {out['dists']} -> "
+                f"{out['dists_after']}")
+    return known_first
 
 
 def distribution(cases, outs):
@@ -715,13 +1671,18 @@ def distribution(cases, outs):
     errs = {}
     for c, o in zip(cases, outs):
         kinds[c["kind"]] = kinds.get(c["kind"], 0) + 1
-        its = c.get("items", c.get("p", []))
+        its = c.get("items", c.get("p", c["specs"][0]["items"] if c.get("specs") else []))
         ks = [_parse_key(x) for x, _ in its]
         if ks and ks[0] is not None:
             widths[len(ks[0])] = widths.get(len(ks[0]), 0) + 1
-        for v in (o.values() if isinstance(o, dict) else []):
+        vs = list(o.values()) if isinstance(o, dict) else []
+        for rec in (o.get("steps") or [] if isinstance(o, dict) else []):
+            vs += [rec.get("res"), rec.get("loaded")] if isinstance(rec, dict) else []
+        vs += (o.get("vals") or []) if isinstance(o, dict) else []
+        for v in vs:
             if isinstance(v, str) and v.startswith("err:"):
                 errs[v] = errs.get(v, 0) + 1
     return {"widths": {str(k): v for k, v in sorted(widths.items())}, "errors_hit": errs,
             "exact_compared": sum(1 for c in cases if c.get("exact")),
-            "reordered_marginals": sum(1 for c in cases if c["kind"] == "subdist" and c["qubits"] != sorted(c["qubits"]))}
+            "reordered_marginals": sum(1 for c in cases if c["kind"] == "subdist" and c["qubits"] != sorted(c["qubits"])),
+            "history_steps": sum(len(c["steps"]) for c in cases if c["kind"] in ("hist", "pool", "files"))}
